@@ -1,4 +1,4 @@
-"""CLI: ./check <Cnn> [--tier quick|thorough] [--repo PATH]; ./check replay <file>; ./check selftest"""
+"""CLI: ./check <Cnn> [--tier quick|thorough] [--repo PATH]; ./check all; ./check replay <file>; ./check selftest [Cnn|case]; ./check fuzz [mode]"""
 from __future__ import annotations
 
 import argparse
@@ -74,6 +74,10 @@ def main(argv: list[str] | None = None) -> int:
         from .selftest import main as st_main
 
         return st_main(a.arg, a.repo, a.jobs)
+    if what == "fuzz":
+        from .fuzz import main as fz_main
+
+        return fz_main(a.arg, a.repo, a.jobs)
     if what == "all":
         worst = 0
         for pid in PROPS:
